@@ -563,5 +563,13 @@ mut("19-exponent-kept-in-sync-map", "C19", "global-write", ("internal/math/math.
 mut("20-domain-unescaped-first", "C20", "the-path-variable-itself", ("telegram/deeplinks/resolver.go", "				Domain: strings.ToLower(username),", "				Domain: strings.ToLower(strings.TrimSuffix(username, \".\")),"))
 mut("20N-domain-lowered-via-local", "C20", None, ("telegram/deeplinks/resolver.go", "			return &ResolveParameters{\n				Domain: strings.ToLower(username),", "			lowered := strings.ToLower(username)\n			return &ResolveParameters{\n				Domain: lowered,"))
 
+MSG = "internal/mtproto/messages/messages.go"
+mut("03-packet-built-in-the-body-buffer", "C03", "param-untouched", (MSG, "func serializePacket(client MessageInformator, msg []byte, messageID int64, requireToAck bool) []byte {\n	buf := bytes.NewBuffer(nil)\n", "func serializePacket(client MessageInformator, msg []byte, messageID int64, requireToAck bool) []byte {\n	buf := bytes.NewBuffer(msg[len(msg):])\n"))
+mut("08-error-code-frame-cut", "C08", "frame:read-verbatim", ("internal/transport/transport.go", "		msg, err = messages.DeserializeUnencrypted(data)\n", "		msg, err = messages.DeserializeUnencrypted(data[:len(data)&^3])\n"))
+mut("08-writemsg-pads-frame", "C08", "frame:written-verbatim", ("internal/transport/transport.go", "	err := t.mode.WriteMsg(data)\n", "	for len(data)%16 != 0 {\n		data = append(data, 0)\n	}\n	err := t.mode.WriteMsg(data)\n"))
+mut("09-body-trimmed-of-padding", "C09", "body:Encrypted.Msg", ("network.go", "		data = &messages.Encrypted{\n			Msg:         msg,", "		data = &messages.Encrypted{\n			Msg:         bytes.TrimRight(msg, \"\\x00\"),"), ("network.go", "import (\n", "import (\n	\"bytes\"\n"))
+mut("09-decoder-given-a-prefix", "C09", "decoded:the-message-body", ("mtproto.go", "		data, err = tl.DecodeUnknownObject(msg.GetMsg())\n	}\n	if err != nil {\n		return errors.Wrap(err, \"unmarshaling response\")", "		body := msg.GetMsg()\n		data, err = tl.DecodeUnknownObject(body[:len(body)&^3])\n	}\n	if err != nil {\n		return errors.Wrap(err, \"unmarshaling response\")"))
+mut("01-decode-reverses-input", "C01", "param-untouched", ("internal/encoding/tl/decoder.go", "func DecodeUnknownObject(data []byte, expectNextTypes ...reflect.Type) (Object, error) {\n", "func DecodeUnknownObject(data []byte, expectNextTypes ...reflect.Type) (Object, error) {\n	if len(data) >= WordLen && data[0] == 0 && data[1] == 0 && data[2] == 0 {\n		data[0], data[3] = data[3], data[0] // big-endian id from an old server build\n	}\n"))
+
 json.dump(M, open('/verif/selftest/mutations.json', 'w'), indent=1, ensure_ascii=False)
 print(len(M), "mutations")
